@@ -341,6 +341,189 @@ def pieces_suite(ctx, exe, gens, labs, seeds, tier):
 
 
 # --------------------------------------------------------------------------
+# histories made of variant pairs; hash-seed sweep over dead code x literals
+
+def _small_targets(progs, configs):
+    out = []
+    for pi, p in enumerate(progs):
+        for level, dbg in configs:
+            out.append({'src': p['src'], 'level': level, 'debug': dbg, 'script': GEN_SCRIPT, 'max_ticks': 10000,
+                        'tag': f"{p['tag']}@O{level}{'g' if dbg else ''}", 'prog': pi, 'kind': p.get('kind', 'generated')})
+    return out
+
+
+def _references(ctx, name, ts):
+    """pristine interpreter, hash seed 0 -> {index: observation} or None"""
+    raws = run_env('pristine', [{'t': pub(t)} for t in ts], hashseed='0')
+    refs = {}
+    for ti, (t, r) in enumerate(zip(ts, raws)):
+        if not isinstance(r, dict) or r.get('harness') or 'verdict' not in r:
+            ctx.broken.append(f'{name}: reference run failed for {t["tag"]}: {str(r)[:300]}')
+            return None
+        refs[ti] = r
+        ctx.bump(f'{name}-ref-verdict:' + ('ok' if r['verdict'].get('ok') else r['verdict'].get('kind', '?')))
+    ctx.count(f'{name}-reference', len(ts), set(r['digest'] for r in refs.values()))
+    return refs
+
+
+def variants_suite(ctx, tier):
+    """every program of a family of same-name/different-definition programs is
+    compiled AND assembled (bytes() and str()) before every other one, in both
+    orders, at the same and at another configuration; whole families as chains;
+    two Compiler instances alive"""
+    quick = tier != 'thorough'
+    fams = c20gen.variant_families()
+    progs, where = [], {}
+    for fi, f in enumerate(fams):
+        for vi, src in enumerate(f['variants']):
+            where[(fi, vi)] = len(progs)
+            progs.append({'src': src, 'tag': f"{f['tag']}#{vi}", 'kind': 'variant'})
+    ts = _small_targets(progs, CONFIGS)
+    NC = len(CONFIGS)
+
+    def tix(fi, vi, ci):
+        return where[(fi, vi)] * NC + ci
+    refs = _references(ctx, 'variants', ts)
+    if refs is None:
+        return
+
+    def ref_env(t):
+        return {'fn': 'detfn.pristine', 'hashseed': '0', 'cwd': vlib.REPO, 'case': {'t': pub(t)}}
+    S = Suite(ctx, refs, ref_env)
+    batch, meta = [], []
+    pi = 0
+    ndiff = 0
+    for fi, f in enumerate(fams):
+        nv = len(f['variants'])
+        for a in range(nv):
+            for b in range(nv):
+                if a == b:
+                    continue
+                # b = history, a = program under test
+                ndiff += sum(1 for ci in range(NC) if refs[tix(fi, a, ci)]['digest'] != refs[tix(fi, b, ci)]['digest'])
+                for ci in range(NC):
+                    if quick and ci % 2 != pi % 2:
+                        continue
+                    ti = tix(fi, a, ci)
+                    case = {'steps': [{'t': pub(ts[tix(fi, b, ci)]), 'run_pre': (pi + ci) % 3 == 0},
+                                      {'t': pub(ts[ti]), 'ref': refs[ti]['digest']}]}
+                    batch.append({'fn': 'sequence', 'case': case})
+                    meta.append(('variant-history', 'sequence', ti, case))
+                ci = pi % NC
+                cj = (ci + 1 + (pi // NC) % (NC - 1)) % NC
+                ti = tix(fi, a, ci)
+                case = {'steps': [{'t': pub(ts[tix(fi, b, cj)]), 'run_pre': pi % 2 == 0},
+                                  {'t': pub(ts[ti]), 'ref': refs[ti]['digest']}]}
+                batch.append({'fn': 'sequence', 'case': case})
+                meta.append(('variant-history-other-config', 'sequence', ti, case))
+                for order in ((pi % 3,) if quick else (0, 1, 2)):
+                    ck = (pi // 3 + order) % NC
+                    ti = tix(fi, a, ck)
+                    case = {'a': pub(ts[tix(fi, b, ck)]), 'b': pub(ts[ti]), 'order': order, 'ref': refs[ti]['digest']}
+                    batch.append({'fn': 'two_alive', 'case': case})
+                    meta.append(('variant-two-compilers', 'two_alive', ti, case))
+                pi += 1
+        # the whole family as one chain, up and down, every step checked
+        for ci in range(NC):
+            if quick and ci % 2 != fi % 2:
+                continue
+            chain = list(range(nv)) + list(range(nv - 2, -1, -1))
+            case = {'steps': [{'t': pub(ts[tix(fi, v, ci)]), 'ref': refs[tix(fi, v, ci)]['digest']} for v in chain]}
+            batch.append({'fn': 'sequence', 'case': case})
+            meta.append(('variant-chain', 'sequence', [tix(fi, v, ci) for v in chain], case))
+    outs = run_env('isolated', batch, hashseed='0')
+    n = {}
+    for (suite, fn, ti, case), out in zip(meta, outs):
+        if suite == 'variant-chain':
+            if not isinstance(out, list):
+                ctx.broken.append(f'correspondence {suite}: worker failed: {str(out)[:300]}')
+                continue
+            for pos, (tj, a) in enumerate(zip(ti, out)):
+                sub = {'steps': [{'t': st['t']} for st in case['steps'][:pos]] + [case['steps'][pos]]}
+                S.judge(suite, 'variant-history', tj, ts[tj], a,
+                        {'fn': 'detfn.sequence', 'hashseed': '0', 'cwd': vlib.REPO, 'case': sub})
+                n[suite] = n.get(suite, 0) + 1
+            continue
+        if fn == 'sequence':
+            if not isinstance(out, list):
+                ctx.broken.append(f'correspondence {suite}: worker failed: {str(out)[:300]}')
+                continue
+            out = out[-1]
+        S.judge(suite, 'variant-two-compilers' if fn == 'two_alive' else 'variant-history', ti, ts[ti], out,
+                {'fn': 'detfn.' + fn, 'hashseed': '0', 'cwd': vlib.REPO, 'case': case})
+        n[suite] = n.get(suite, 0) + 1
+    for suite, k in sorted(n.items()):
+        ctx.count(suite, k, ())
+    ctx.bump('variant-families', len(fams))
+    ctx.bump('variant-programs', len(progs))
+    ctx.bump('variant-ordered-pairs', pi)
+    ctx.bump('variant-ordered-pairs-x-config-with-different-reference', ndiff)
+    ctx.sample({'suite': 'variant-history', 'family': fams[0]['tag'], 'history_program': fams[0]['variants'][0],
+                'program_under_test': fams[0]['variants'][1]})
+    ctx.rule.append(f'variants: {len(fams)} families of programs that reuse the same user-visible names with different '
+                    f'definitions ({len(progs)} programs: 16 nested-TYPE families = 4 outer shapes with an unchanged '
+                    'field list x global / SUB-local / array element / parameter use x 3 inner TYPEs of different '
+                    'sizes; TYPE field lists, CONST values and types, SUB and FUNCTION signatures, one name as '
+                    'variable / array / FUNCTION / SUB / label / TYPE / CONST, array bounds, DEFtype ranges, labels, '
+                    f'line numbers, DATA, literal order, STATIC). All {pi} ordered pairs (history, program) of a family: '
+                    'fresh process compiles and assembles (bytes() and str(), every third also run) the history '
+                    'program, then the program under test, at the same configuration (all 6 in thorough, 3 '
+                    'alternating in quick) and once at another configuration; two Compiler instances alive in one '
+                    '(quick) / three (thorough) interleavings; each family as one chain v0..vn..v0 with every step '
+                    'checked; all against the pristine hash-seed-0 reference of the program under test')
+
+
+def deadcode_suite(ctx, tier, rseed):
+    """hash-seed sweep over programs with many string literals and a statement
+    with literals directly after an unconditional transfer"""
+    quick = tier != 'thorough'
+    progs = c20gen.deadcode_programs(not quick)
+    configs = [(2, False), (2, True)] if quick else [(2, False), (2, True), (1, False), (1, True)]
+    ts = _small_targets(progs, configs)
+    refs = _references(ctx, 'deadcode', ts)
+    if refs is None:
+        return
+
+    def ref_env(t):
+        return {'fn': 'detfn.pristine', 'hashseed': '0', 'cwd': vlib.REPO, 'case': {'t': pub(t)}}
+    S = Suite(ctx, refs, ref_env)
+    seeds = [str(k) for k in range(1, 8)] + [str(rseed)]
+    cases = [{'t': pub(t), 'ref': refs[ti]['digest']} for ti, t in enumerate(ts)]
+    for s in seeds:
+        ans = run_env('pristine', cases, hashseed=s)
+        for ti, a in enumerate(ans):
+            S.judge('deadcode-hashseed', 'hashseed', ti, ts[ti], a,
+                    {'fn': 'detfn.pristine', 'hashseed': s, 'cwd': vlib.REPO, 'case': {'t': pub(ts[ti])}})
+        ctx.count(f'deadcode-hashseed={s}', len(ts), ())
+    # how many programs really lose code: the dead literal is gone from the -O2 listing
+    gone = 0
+    for ti, t in enumerate(ts):
+        if (t['level'], t['debug']) == (2, False) and refs[ti]['verdict'].get('ok'):
+            body = refs[ti]['listing'].split('.code')[-1]
+            dead_words = set(w for w in _quoted(t['src'].split('\n')) if ('"%s"' % w) not in body)
+            gone += 1 if dead_words else 0
+    ctx.bump('deadcode-programs', len(progs))
+    ctx.bump('deadcode-programs-with-a-literal-push-removed-at-O2', gone)
+    ctx.extra['deadcode_hash_seeds'] = ['0 (reference)'] + seeds
+    ctx.sample({'suite': 'deadcode-hashseed', 'tag': ts[0]['tag'], 'src': ts[0]['src']})
+    ctx.rule.append(f'deadcode: {len(progs)} programs = {len(c20gen.DEAD_CONTEXTS)} contexts (top level, IF, ELSE, '
+                    'single-line IF, FOR, DO, WHILE, SELECT CASE, SUB, FUNCTION, GOSUB routine) x terminators END / '
+                    'SYSTEM / GOTO / RETURN (+ EXIT FOR / DO / SUB / FUNCTION) x dead statement with string literals '
+                    'directly behind it (PRINT, INPUT prompt, string concatenation, two PRINTs; 2 of 4 in quick) x '
+                    '3 or 9 preceding live literals (some repeated, the dead literal sometimes also live) + 3 '
+                    f'following; configurations {configs}; pristine interpreter under hash seeds {seeds} (the last '
+                    'from VERIF_SEED) against the hash-seed-0 reference')
+
+
+def _quoted(lines):
+    out = []
+    for ln in lines:
+        parts = ln.split('"')
+        out += parts[1::2]
+    return out
+
+
+# --------------------------------------------------------------------------
 
 def build_targets(ctx, tier):
     corp = vlib.run_impl('corpus.load', [None])[0]
@@ -429,7 +612,7 @@ def main(tier, seed):
     log('hash seeds, pristine')
     # ---- hash seeds, pristine
     quick = tier != 'thorough'
-    # development aid (never set by ./check): C20_SKIP=seeds,cwd,chainrandom,batch,fresh,model,pieces
+    # development aid (never set by ./check): C20_SKIP=seeds,cwd,chainrandom,batch,fresh,model,pieces,variants,deadcode
     SKIP = set(x for x in os.environ.get('C20_SKIP', '').split(',') if x)
     if SKIP or os.environ.get('C20_LIMIT') or os.environ.get('C20_ONLY'):
         ctx.extra['dev_mode'] = {'skipped_suites': sorted(SKIP), 'limit': os.environ.get('C20_LIMIT'),
@@ -719,6 +902,13 @@ def main(tier, seed):
     # ---- compiler-side pieces
     if 'pieces' not in SKIP:
         pieces_suite(ctx, exe_d, gens, labs, ['0'] + seeds[:2] + [seeds[-1]], tier)
+
+    log('variant histories')
+    if 'variants' not in SKIP:
+        variants_suite(ctx, tier)
+    log('dead code x literals x hash seeds')
+    if 'deadcode' not in SKIP:
+        deadcode_suite(ctx, tier, rseed)
 
     t = targets[len(targets) // 2]
     ctx.sample({'suite': 'reference', 'tag': t['tag'], 'digest': refs[len(targets) // 2]['digest'],
